@@ -1,5 +1,5 @@
-(* Proofs/SampleGuarded.v — the two properties that reduce_classes takes from group[0] only
-   (nillable, namespace): refuted on the faithful model, proved under a uniformity guard. *)
+(* Proofs/SampleGuarded.v — nillable is merged over the group (fix 359d494): proved without side condition;
+   the namespace is still taken from group[0]: refuted on the faithful model, proved under a uniformity guard. *)
 From Coq Require Import NArith ZArith List Bool Lia.
 From XV Require Import Base.Str Base.Eqb Gen.SampleTables Model.Sample Model.SampleCorr
   Proofs.SampleBase Proofs.SampleReduce Proofs.SampleBuild Proofs.SampleFit.
@@ -21,17 +21,14 @@ Proof.
   unfold node_class. destruct (build_class_spec cv m p) as [mixed [nilb [attrs [E [_ [_ En]]]]]]. rewrite E. cbn. auto.
 Qed.
 
-Theorem nil_fit : forall cv (S : list tree),
-  g_nil_uniform cv S = true -> forallb (tree_nil_ok (classes_of_xml cv S)) S = true.
+Theorem nil_fit : forall cv (S : list tree), forallb (tree_nil_ok (classes_of_xml cv S)) S = true.
 Proof.
-  intros cv S G. apply forallb_forall. intros t Ht. unfold tree_nil_ok, classes_of_xml.
+  intros cv S. apply forallb_forall. intros t Ht. unfold tree_nil_ok, classes_of_xml.
   apply (for_all_class_nodes cv S); [|exact Ht]. intros p m Hin.
-  destruct (reduce_classes_spec _ (all_nodup cv _ (all_of_samples cv S)) _ Hin) as [r [Fr [_ [_ [_ [_ [_ [f [Hf [Qf [Nf _]]]]]]]]]]].
+  destruct (reduce_classes_spec _ (all_nodup cv _ (all_of_samples cv S)) _ Hin) as [r [Fr [_ [_ [_ [_ [_ [_ Nr]]]]]]]].
   destruct (node_class_fields cv p m) as [Q [_ N]]. rewrite Q in Fr. unfold node_nil_ok. rewrite Fr.
-  assert (E : c_nillable r = nil_flag (t_atts m) false).
-  { rewrite Nf, <- N. eapply (uniform_by_spec c_nillable Bool.eqb); eauto. apply eqb_prop. }
-  unfold xsi_nil_of, nil_flag in *. destruct (find _ (rev (t_atts m))) as [[k v]|]; [|reflexivity].
-  rewrite E. destruct (is_nil_true v); reflexivity.
+  rewrite N in Nr. unfold xsi_nil_of, nil_flag in *. destruct (find _ (rev (t_atts m))) as [[k v]|]; [|reflexivity].
+  destruct (is_nil_true v); [|apply orb_true_r]. rewrite (Nr eq_refl). reflexivity.
 Qed.
 
 Theorem ns_fit : forall cv (S : list tree),
@@ -39,7 +36,7 @@ Theorem ns_fit : forall cv (S : list tree),
 Proof.
   intros cv S G. apply forallb_forall. intros t Ht. unfold doc_ns_ok, classes_of_xml.
   apply (for_all_class_nodes cv S); [|exact Ht]. intros p m Hin.
-  destruct (reduce_classes_spec _ (all_nodup cv _ (all_of_samples cv S)) _ Hin) as [r [Fr [_ [_ [_ [_ [_ [f [Hf [Qf [_ Nf]]]]]]]]]]].
+  destruct (reduce_classes_spec _ (all_nodup cv _ (all_of_samples cv S)) _ Hin) as [r [Fr [_ [_ [_ [_ [_ [[f [Hf [Qf Nf]]] _]]]]]]]].
   destruct (node_class_fields cv p m) as [Q [N _]]. rewrite Q in Fr. unfold node_ns_ok. rewrite Fr.
   apply ostr_eqb_eq. rewrite Nf, <- N. eapply (uniform_by_spec c_ns ostr_eqb); eauto. intros x y. apply ostr_eqb_eq.
 Qed.
@@ -48,15 +45,6 @@ Qed.
 Definition s (x : list N) : str := x.
 Definition XSI_NIL_Q := qn_xsi_nil.
 Definition no_tests : sconv := sconv_of_table [].
-
-(* <r><n a="1" xsi:nil="true"/><n a="2">5</n></r> : the merged class of n is not nillable *)
-Definition w_nil : list tree :=
-  [T [114] [] None None
-     [T [110] [([97], [49]); (XSI_NIL_Q, [116;114;117;101])] None None [];
-      T [110] [([97], [50])] (Some [53]) None []]].
-
-Theorem nil_fit_refuted : exists cv S, forallb (tree_nil_ok (classes_of_xml cv S)) S = false.
-Proof. exists no_tests, w_nil. vm_compute. reflexivity. Qed.
 
 (* <r><p xmlns="urn:b"><k xmlns="" a="1"/></p><q><k a="2"><t>2</t></k></q></r> :
    the merged class of k has namespace None, the node below p has class namespace "" *)
@@ -76,7 +64,7 @@ Definition w_guard_ok : list tree :=
       T ([123] ++ urn_b ++ [125;109]) [([97], [50])] (Some [53]) None []]].
 
 Example guards_nonvacuous :
-  g_nil_uniform no_tests w_guard_ok = true /\ g_ns_uniform no_tests w_guard_ok = true
+  g_ns_uniform no_tests w_guard_ok = true
   /\ existsb (fun t => existsb (fun k => match xsi_nil_of k with Some true => true | _ => false end) (t_kids t)) w_guard_ok = true.
 Proof. vm_compute. auto. Qed.
 
@@ -151,9 +139,3 @@ Example regular_nonvacuous :
   && forallb (doc_nil_present_ok cs) w_regular && forallb (doc_order_ok cs) w_regular
   && forallb (doc_ns_ok cs) w_regular && forallb (tree_nil_ok cs) w_regular = true.
 Proof. vm_compute. reflexivity. Qed.
-
-(* {"s": "123"} : the JSON string is typed xs:int (strict int test true as recorded from the real converter) *)
-Definition w_json_string : list json := [JObj [(L "s", JStr (L "123"))]].
-Definition w_json_tests : list (str * list bool) := [(L "123", [true; false; false; true; false; false; false; false; false])].
-Theorem json_strings_refuted : exists tbl S, forallb (g_json_strings (sconv_of_table tbl)) S = false.
-Proof. exists w_json_tests, w_json_string. vm_compute. reflexivity. Qed.
